@@ -370,7 +370,10 @@ def run_tasks(modname: str, tasks: list[Task], tier: str, seed: int, nproc: int 
         return [_worker_run(t) for t in tasks]
     ctx = mp.get_context("fork")
     with ctx.Pool(nproc, initializer=_worker_init, initargs=(modname, tier, seed), maxtasksperchild=None) as pool:
-        return list(pool.imap_unordered(_worker_run, tasks, chunksize=1))
+        res = list(pool.imap_unordered(_worker_run, tasks, chunksize=1))
+        pool.close()
+        pool.join()  # let the workers exit normally (a coverage run saves its data at exit)
+        return res
 
 
 def sub_seed(seed: int, *parts: Any) -> int:
